@@ -63,6 +63,22 @@ def cases(ctx):
             for s_ in c["inputs"]:
                 s_["dtype"] = dt_
                 s_["data"] = [rng.choice([0, 1, 1] if dt_.startswith("u") else [-1, 0, 1]) for _ in s_["data"]]
+        elif cmd in ("FuzzyUnion", "FuzzyOr", "FuzzyAnd", "FuzzyNot") and rng.random() < 0.08:
+            # layers flagged fuzzy holding finite numbers near the end of the double range, of either sign (sums of finite
+            # numbers may overflow to an infinity, which is limited like any number; they never give NaN)
+            for s_ in c["inputs"]:
+                if s_["dtype"] == "float64":
+                    s_["data"] = [rng.choice([1.5e308, -1.5e308, 1e308, -1.7e308, 0.5, -1.0]) for _ in s_["data"]]
+            if len(c["inputs"]) >= 2 and c["inputs"][0]["dtype"] == c["inputs"][1]["dtype"] == "float64":
+                c["inputs"][0]["data"][0], c["inputs"][1]["data"][0] = 1.5e308, -1.5e308
+        elif cmd in arr.FUZZY_INPUT and rng.random() < 0.07:
+            # whole-number layers flagged fuzzy that hold the ends of their type's range
+            dt_ = rng.choice(["int8", "int16", "int32", "int64"])
+            lo_, hi_ = int(numpy.iinfo(dt_).min), int(numpy.iinfo(dt_).max)
+            for s_ in c["inputs"]:
+                s_["dtype"] = dt_
+                s_["data"] = [rng.choice([lo_, lo_, hi_, -1, 0, 1]) for _ in s_["data"]]
+            c["inputs"][0]["data"][0] = lo_
         elif cmd in arr.FUZZY_INPUT and rng.random() < 0.1:
             # layers flagged fuzzy whose values lie outside the range (rounding noise of another tool, or plain wrong): whatever
             # the operator makes of them, what it returns is fuzzy
